@@ -28,6 +28,36 @@ theorem only_path_query_used (host : Bytes) (u v : WsUrl)
     websockets_rewriteTarget host u = websockets_rewriteTarget host v := by
   cases u; cases v; simp_all [websockets_rewriteTarget]
 
+/-- The authority part of the dial target is fixed by configuration: scheme `ws`, the configured
+    host, no opaque part, no credentials — whatever the client wrote there. -/
+theorem authority_fixed (host : Bytes) (u : WsUrl) :
+    (websockets_rewriteTarget host u).Scheme = [119,115] ∧ (websockets_rewriteTarget host u).Host = host ∧
+    (websockets_rewriteTarget host u).Opaque = [] ∧ (websockets_rewriteTarget host u).User = none := by
+  simp [websockets_rewriteTarget]
+
+/-- path and query of the supplied URL are carried over unchanged -/
+theorem path_query_preserved (host : Bytes) (u : WsUrl) :
+    (websockets_rewriteTarget host u).Path = u.Path ∧ (websockets_rewriteTarget host u).RawPath = u.RawPath ∧
+    (websockets_rewriteTarget host u).RawQuery = u.RawQuery ∧ (websockets_rewriteTarget host u).ForceQuery = u.ForceQuery := by
+  simp [websockets_rewriteTarget]
+
+/-- The client's scheme, host, opaque part and credentials have no influence at all on which
+    peer is contacted: replacing them by anything else leaves the outcome unchanged. -/
+theorem client_authority_irrelevant (host : Bytes) (u : WsUrl) (ok : Bool) (sch hst opq : Bytes) (usr : Option Bytes) :
+    dialOutcome ok (websockets_rewriteTarget host { u with Scheme := sch, Host := hst, Opaque := opq, User := usr }) =
+    dialOutcome ok (websockets_rewriteTarget host u) := by
+  simp [websockets_rewriteTarget]
+
+/-- rewriting is idempotent: a second pass (or a client that already names the backend) changes nothing -/
+theorem rewrite_idempotent (host : Bytes) (u : WsUrl) :
+    websockets_rewriteTarget host (websockets_rewriteTarget host u) = websockets_rewriteTarget host u := by
+  simp [websockets_rewriteTarget]
+
+/-- requests under the shim prefix go to the shim, all others to the wrapped handler: the routing
+    decision is exactly the prefix test -/
+theorem route_iff_prefix (shimPrefix path : Bytes) : route shimPrefix path = .shim ↔ shimPrefix <+: path := by
+  simp [route, Go.hasPrefix, List.isPrefixOf_iff_prefix]
+
 /-- The defect this check found in the original code (only `Scheme` and `Host` were
     overwritten): an opaque URL such as `x:y` made the agent dial `:80` on its own host. -/
 theorem opaque_dial_counterexample :
